@@ -14,7 +14,7 @@ import io
 import itertools
 
 PROP = 'C16'
-TARGETS = ['T16a', 'T16b', 'T16c', 'T16d', 'T16e', 'T16f', 'T16g', 'T16h', 'T16i', 'T16j', 'T15e', 'T15c']
+TARGETS = ['T16a', 'T16b', 'T16c', 'T16d', 'T16e', 'T16f', 'T16g', 'T16h', 'T16i', 'T16j', 'T16k', 'T15e', 'T15c']
 LEAN_MODULES = ['HdVerif.Props.C16']
 MODEL_MODULES = ['HdVerif.Model.SRReport']
 NAMESPACE = 'HdVerif.C16'
@@ -281,9 +281,20 @@ def _code(c):
 
 
 def _check_accessors(ctx, case, seq, g, method):
-    """a returned group reports what it was constructed with"""
+    """a returned group reports what it was constructed with.  Every query returns a fresh object for the group, so the
+    accessors are checked on the first return of a group on a path and on every 5th return after that (the full check is a
+    third of the run time otherwise); the tracking UID is checked on every return."""
     from gen import srreports
     import numpy as np
+    seen = ctx.__dict__.setdefault('_acc_seen', {})
+    key = (case.get('stream'), case.get('idx'), case.get('group'), case.get('path'), method)
+    seen[key] = seen.get(key, 0) + 1
+    if seen[key] % 5 != 1:
+        if str(seq.tracking_uid) != g['tracking_uid']:
+            ctx.fail(dict(case, accessor='tracking_uid'), {'what': 'returned group does not report its construction values',
+                                                           'problems': [{'what': 'tracking_uid', 'got': str(seq.tracking_uid), 'want': g['tracking_uid']}]},
+                     site=f'accessors/{method}/tracking_uid')
+        return
     site = f'accessors/{method}'
     probs = []
 
@@ -313,6 +324,8 @@ def _check_accessors(ctx, case, seq, g, method):
           [tuple(t) for t in x.get('sites', [])], [tuple(i) for i in x.get('images', [])]) for n, v, u, x in g['measurements']])
     chk('evaluations', [(_code(e.name), _code(e.value)) for e in seq.get_qualitative_evaluations()],
         [(tuple(n), tuple(v)) for n, v in g['evaluations']])
+    for _n, v_, _u, _x in g['measurements']:
+        ctx.hist('measurement_value', srreports.value_kind(v_) + '/' + str(case.get('path', case.get('stream'))))
     for n, v, u, _x in g['measurements'][:1]:
         got = [(float(m.value)) for m in seq.get_measurements(name=srreports.cc(n))]
         want = [float(v2) for n2, v2, _, _ in g['measurements'] if tuple(n2) == tuple(n)]
@@ -575,7 +588,9 @@ def _real_items(group_item):
         elif vt == 'TEXT':
             value = str(it.TextValue)
         elif vt == 'NUM':
-            value = str(float(it.MeasuredValueSequence[0].NumericValue))
+            mv = it.MeasuredValueSequence[0]
+            # the exact value is FloatingPointValue (FD) when the item has one; NumericValue (DS) holds at most 16 characters
+            value = str(float(mv.FloatingPointValue)) if 'FloatingPointValue' in mv else str(float(mv.NumericValue))
         kids = []
         if vt in ('SCOORD', 'SCOORD3D'):
             for k in it.get('ContentSequence', []):
@@ -843,6 +858,138 @@ def _third_party(ctx, reqs3, pending3, only_idx=None):
                 reqs3.append(('queryItems', {'method': method, 'groups': model_groups,
                                              'filters': {k: (list(v) if isinstance(v, tuple) else v) for k, v in f.items()}}))
                 pending3.append((case, ('ok', got) if ok else ('err', res[1])))
+
+
+def _match_positions(groups, seqs, may):
+    """positions of the returned groups: tracking UIDs may repeat, so match greedily in document order (None = no match)"""
+    got_idx, pos = [], 0
+    for s_ in seqs:
+        t = _tracking(s_)
+        k = next((j for j in range(pos, len(groups)) if groups[j]['tracking_uid'] == t and j in may), None)
+        if k is None:
+            return None
+        got_idx.append(k)
+        pos = k + 1
+    return got_idx
+
+
+def _twins(ctx, reqs, pending, spec_reqs, spec_pending, only_idx=None):
+    """SEVERAL groups pass one filter: for every group shape a report [A, X, A', B] where A' is a twin of A (same tracking UID,
+    finding type, finding sites, reference - only the tracking identifier text and the measurements differ), B shares the
+    tracking UID with A but has another finding type and other sites, X is a group of a random shape with values of its own.
+    Queried (kind of A) with every single filter naming A's value, every pair with the tracking UID, and all of them jointly;
+    in memory and written / parsed back; the other two methods without filter.  'Never omitting one that passes': a query
+    that stops at the first hit, or deduplicates by tracking UID, returns too few."""
+    import copy
+    import highdicom as hd
+    from gen import srreports
+    from pydicom.sr.codedict import codes
+    n_extra = ctx.n(0, 120)
+    for idx in ([only_idx] if only_idx is not None else range(len(SHAPES) + n_extra)):
+        r = ctx.rng('twins', idx)
+        shape = SHAPES[idx % len(SHAPES)]
+        pool = srreports.instance_pool(r)
+        res = _call(_shape_group, r, pool, 1, shape)
+        if res[0] != 'ok':
+            ctx.note(f'twins {idx}: {res[2]}')
+            continue
+        a = res[1]
+        if a['finding_type'] is None:
+            a['finding_type'] = r.choice(srreports.FINDINGS)
+        if not a['finding_sites']:
+            a['finding_sites'] = [r.choice(srreports.SITES)]
+            a['lateralities'] = [None]
+        a2 = copy.deepcopy(a)
+        a2['tracking_id'] = 'lesion 1 (second outline)'
+        a2['measurements'] = [(r.choice(srreports.MEAS), srreports.measurement_value(r), ('mm', 'UCUM'), {})]
+        b = _shape_group(r, pool, 3, shape)
+        b['tracking_uid'] = a['tracking_uid']
+        b['finding_type'] = r.choice([x for x in srreports.FINDINGS if tuple(x) != tuple(a['finding_type'])])
+        b['finding_sites'] = [x for x in srreports.SITES if tuple(x) not in [tuple(y) for y in a['finding_sites']]][:1]
+        b['lateralities'] = [None for _ in b['finding_sites']]
+        x = _shape_group(r, pool, 2, r.choice(SHAPES))
+        order = [[a, x, a2, b], [x, a, b, a2], [a, a2, x, b], [b, a, x, a2]][idx % 4] if idx >= len(SHAPES) else [a, x, a2, b]
+        groups = order
+        oc = hd.sr.ObservationContext(observer_person_context=hd.sr.ObserverContext(
+            observer_type=codes.DCM.Person, observer_identifying_attributes=hd.sr.PersonObserverIdentifyingAttributes(name='Doe^Jane')))
+        res = _call(lambda: hd.sr.MeasurementReport(observation_context=oc, procedure_reported=codes.LN.CTUnspecifiedBodyRegion,
+                                                    imaging_measurements=[srreports.build_group(r, g) for g in groups]))
+        case0 = {'stream': 'twins', 'seed': ctx.seed, 'idx': idx, 'shape': list(shape)}
+        if res[0] != 'ok':
+            ctx.fail(case0, f'report of admissible groups not constructed: {res[2]}', site='report/construct')
+            continue
+        rep = res[1]
+        paths = [('memory', rep)]
+        rd = _call(_as_document, {'groups': groups, 'pool': pool, 'rep': rep})
+        if rd[0] == 'ok' and type(rd[1].content).__name__ == 'MeasurementReport':
+            paths.append(('reread', rd[1].content))
+        else:
+            ctx.fail(case0, f'report cannot be written and parsed back: {rd[2] if rd[0] != "ok" else type(rd[1].content).__name__}', site='srread')
+        model_groups = [_model_params(g) for g in groups]
+        kind = shape[0]
+        # the filters A passes, each with A's own value
+        own = {'tracking_uid': a['tracking_uid'], 'finding_type': tuple(a['finding_type']), 'finding_site': tuple(a['finding_sites'][0])}
+        t = a['ref']['type']
+        if kind != 'image':
+            own['reference_type'] = srreports.REF_TYPE_OF[t]
+            if t in ('region2d', 'regions2d'):
+                own['graphic_type'] = (2, a['ref']['graphic'] if t == 'region2d' else a['ref']['regions'][0][0])
+            elif t in ('region3d', 'surface'):
+                own['graphic_type'] = (3, a['ref']['graphic'])
+        refs = srreports.referenced_instances(a)
+        if refs and own.get('graphic_type', (2,))[0] != 3:
+            own['referenced_sop_instance_uid'] = refs[0][1]
+            own['referenced_sop_class_uid'] = refs[0][0]
+        names = FILTERS[kind]
+        combos = [{}] + [{k: own[k]} for k in names if k in own]
+        if ctx.tier != 'quick' or ctx.search_mode or idx % 4 == 0:
+            combos += [{'tracking_uid': own['tracking_uid'], k: own[k]} for k in names if k in own and k != 'tracking_uid']
+        joint = {k: own[k] for k in names if k in own}
+        if 'graphic_type' in joint and joint['graphic_type'][0] == 3:
+            joint.pop('referenced_sop_instance_uid', None)
+            joint.pop('referenced_sop_class_uid', None)
+        combos.append(joint)
+        plan = [(kind, {n_: c.get(n_) for n_ in names}) for c in combos]
+        plan += [(m, {n_: None for n_ in FILTERS[m]}) for m in ('planar', 'volumetric', 'image') if m != kind]
+        plan += [(m, {n_: (own['tracking_uid'] if n_ == 'tracking_uid' else None) for n_ in FILTERS[m]})
+                 for m in ('planar', 'volumetric', 'image') if m != kind]
+        for method, f in plan:
+            why, must, may = expected(groups, method, f)
+            reqs.append(('query', {'method': method, 'groups': model_groups,
+                                   'filters': {k: (list(v) if isinstance(v, tuple) else v) for k, v in f.items()}}))
+            spec_reqs.append(('spec', reqs[-1][1]))
+            spec_pending.append((dict(case0, method=method, filters={k: v for k, v in f.items() if v is not None}, what='spec'), why, must, may))
+            first = True
+            for pname, rp in paths:
+                case = dict(case0, method=method, filters={k: v for k, v in f.items() if v is not None}, path=pname)
+                res = _call(getattr(rp, METHODS[method]), **_to_args(f))
+                ok = res[0] == 'ok'
+                ctx.case(path='twins/' + pname, method=method, outcome=('ok' if ok else res[2].split(':')[0]),
+                         twins_expected=('refuse' if why else f'{len(must)} of {len(groups)}'),
+                         nontrivial_key=('twins', tuple(shape), method, tuple(sorted(case['filters'])), pname) if len(must) >= 2 else None)
+                if first:
+                    pending.append((case, ('ok', [_tracking(s_) for s_ in res[1]]) if ok else ('err', res[1]), groups, 'query'))
+                    first = False
+                if why:
+                    if ok:
+                        ctx.fail(case, f'filter combination accepted although it cannot apply: {why}', site=f'{method}/refusal')
+                    continue
+                if not ok:
+                    ctx.fail(case, f'applicable query refused: {res[2]}', site=f'{method}/accept')
+                    continue
+                got_idx = _match_positions(groups, res[1], may)
+                if got_idx is None or any(k not in got_idx for k in must):
+                    ctx.fail(case, {'what': 'query result is not exactly the groups of that kind satisfying every filter, in document order '
+                                            '(several groups pass this filter)',
+                                    'got_tracking_ids': [str(s_.tracking_identifier) for s_ in res[1]],
+                                    'must': [groups[k]['tracking_id'] for k in must], 'may': [groups[k]['tracking_id'] for k in may]},
+                             site=f'{method}/result')
+                    continue
+                for s_, k in zip(res[1], got_idx):
+                    if groups[k]['kind'] == method:
+                        _check_accessors(ctx, dict(case, group=k), s_, groups[k], method)
+    ctx.exhaustive.append(f'twins: for each of the {len(SHAPES)} group shapes a report with two identical-valued groups and a third sharing '
+                          'the tracking UID; every single filter, every pair with the tracking UID, all jointly; in memory and re-read')
 
 
 MALFORMED = ['bogus-graphic', 'no-graphic', 'no-sop', 'no-sop-source', 'no-children', 'reverse-regions', 'legacy-names',
@@ -1218,6 +1365,8 @@ def run(ctx):
     lap('reports')
     _shapes(ctx, reqs, pending, spec_reqs, spec_pending)
     lap('shapes')
+    _twins(ctx, reqs, pending, spec_reqs, spec_pending)
+    lap('twins')
     reqs3, pending3 = [], []
     _third_party(ctx, reqs3, pending3)
     lap('third party')
@@ -1286,5 +1435,7 @@ def replay(ctx, case):
         _fixtures(sub, [], [])
     elif case.get('stream') == 'shapes':
         _shapes(sub, [], [], [], [], only_idx=case['idx'])
+    elif case.get('stream') == 'twins':
+        _twins(sub, [], [], [], [], only_idx=case['idx'])
     fl = [f for f in sub.failures if all(f['case'].get(k) == case.get(k) for k in ('method', 'path') if k in case)]
     return (fl or sub.failures)[:3] or None
